@@ -26,7 +26,10 @@ res=[]; ok=True
 shard=os.environ.get('SHARD','')
 sk,sn=(int(x) for x in shard.split('/')) if shard else (0,1)
 outp='/dev/shm/sens-%d.json'%sk if shard else '/verif/evidence/sensitivity.json'
-for di,d in enumerate(sorted(os.listdir('/verif/seeded'))):
+# SAMPLE=n: of the changes of the earlier waves only every n-th is run (the two newest waves always)
+sample=int(os.environ.get('SAMPLE','1'))
+ids=[d for i,d in enumerate(sorted(os.listdir('/verif/seeded'))) if d.startswith(('w7','w8')) or i%sample==0]
+for di,d in enumerate(ids):
     if di%sn!=sk: continue
     mp='/verif/seeded/%s/meta.json'%d
     if not os.path.exists(mp): continue
@@ -54,6 +57,6 @@ for di,d in enumerate(sorted(os.listdir('/verif/seeded'))):
     res.append({'id':d,'breaks':m['breaks_property'],'checks_tried':props,'detected_by':det,'detected':det is not None,'wall_s':round(time.time()-t0,1)})
     print(d,'->',det); sys.stdout.flush()
     if det is None: ok=False
-json.dump({'tree':subprocess.run(['git','-C','/repo','log','--format=%h','-1'],capture_output=True,text=True).stdout.strip(),'budget_s_per_check':int(bud),'seeded_changes':len(res),'detected':sum(1 for r in res if r['detected']),'outside_property':sum(1 for r in res if r['detected'] is None),'results':res},open(outp,'w'),indent=1)
+json.dump({'tree':subprocess.run(['git','-C','/repo','log','--format=%h','-1'],capture_output=True,text=True).stdout.strip(),'budget_s_per_check':int(bud),'sample_of_earlier_waves':sample,'seeded_changes':len(res),'detected':sum(1 for r in res if r['detected']),'outside_property':sum(1 for r in res if r['detected'] is None),'results':res},open(outp,'w'),indent=1)
 sys.exit(0 if ok else 1)
 PY
